@@ -2,17 +2,17 @@
 # confirm_seed.sh <worktree> <i> : confirm a seeded change in a scratch worktree:
 #  (a) patch applies, workspace tests pass; (b) demo fails with the patch, passes without it.
 set -u
-WT=$1; I=$2
+WT=$1; I=$2; ARG=${3:-$1/target/debug/jaq}
 cd "$WT" || exit 2
 export CARGO_TARGET_DIR=$WT/target CARGO_NET_OFFLINE=true
 git checkout -q -- . 
 S=$WT/seeded/$I
 git apply --check "$S/patch.diff" || { echo "PATCH DOES NOT APPLY"; exit 1; }
 cargo build --offline -q -p jaq 2>/dev/null
-bash "$S/demo.sh" "$WT/target/debug/jaq" >/dev/null 2>&1; echo "demo on clean: rc=$?"
+bash "$S/demo.sh" "$ARG" >/dev/null 2>&1; echo "demo on clean: rc=$?"
 git apply "$S/patch.diff"
 T=$(cargo test --workspace --offline --no-fail-fast 2>&1 | grep -E "^test result" | awk '{p+=$4; f+=$6} END {print p" passed "f" failed"}')
 echo "tests with patch: $T"
 cargo build --offline -q -p jaq 2>/dev/null
-bash "$S/demo.sh" "$WT/target/debug/jaq" >/dev/null 2>&1; echo "demo with patch: rc=$?"
+bash "$S/demo.sh" "$ARG" >/dev/null 2>&1; echo "demo with patch: rc=$?"
 git checkout -q -- .
